@@ -184,7 +184,7 @@ STACKS = [
     S('mortonp_s3_f1', ['mortonp:s3', 'array:f1'], 'T', family='N3M1f'),
     # family N4 M1 f
     S('strided_s4_f1', ['strided:s4', 'array:f1'], family='N4M1f'),
-    S('mortonb_s4_f1', ['mortonb:s4', 'array:f1'], 'T', family='N4M1f'),
+    S('mortonb_s4_f1', ['mortonb:s4', 'array:f1'], family='N4M1f'),
     # double storage
     S('strided_s2_d2', ['strided:s2', 'array:d2'], family='N2M2d'),
     S('mortonb_s2_d2', ['mortonb:s2', 'array:d2'], 'T', family='N2M2d'),
